@@ -211,3 +211,44 @@ def run(F, R, tier):
                         "%s port argument origins: %s" % (callee, sorted(map(str, B.origins(t["args"][0])))))
     n = len([i for i in R.instances if i["rule"] == "C03.R4" and "-port" in i["key"]])
     R.floor("C03.R4", n, 2, "listener/redirector constructions with the port constant")
+
+    # ------------------------------------------------------------------ R5 helper contract: what "elevated" and the identity are
+    from lib import contracts
+    R.rule("C03.R5", "Claims::from_audit_entry: runAsElevated = (record.is_admin == 1); user, process and ids come from the same record")
+    fe = R.anchor("azure_proxy_agent::proxy::Claims::from_audit_entry::{closure#0}", "C03.R5")
+    if fe:
+        B = mir.Body(fe, F)
+        aggs = contracts.agg_fields(B, "proxy::Claims")
+        R.check(len(aggs) == 1, "C03.R5", "C03.R5:%s:one-construction" % fe["id"], "-", "Claims is constructed at one place")
+        for bi, fl in aggs:
+            def param_is(o, path):
+                org = B.origins(o)
+                return bool(org) and all(x[0] == "param" and x[1] == "entry" and tuple(x[2]) == path for x in org)
+            # runAsElevated
+            ok, det = False, ""
+            org = B.origins(fl.get("runAsElevated", {"k": "const"}))
+            if len(org) == 1 and next(iter(org))[0] == "bin" and next(iter(org))[1] == "Eq":
+                blk = B.blocks[next(iter(org))[2]]
+                for s in blk["stmts"]:
+                    if s["k"] == "assign" and s["rv"]["k"] == "bin" and s["rv"]["op"] == "Eq":
+                        a, b_ = s["rv"]["a"], s["rv"]["b"]
+                        ca = a if a["k"] == "const" else b_
+                        va = b_ if a["k"] == "const" else a
+                        ok = ca["k"] == "const" and ca.get("val") == 1 and param_is(va, ("is_admin",))
+                        det = "%s == %s" % (sorted(map(str, B.origins(va))), ca.get("val"))
+            R.check(ok, "C03.R5", "C03.R5:%s:runAsElevated" % fe["id"], q.where(B, bi),
+                    "runAsElevated = (entry.is_admin == 1): only the kernel's is_root flag makes a caller elevated",
+                    "runAsElevated is computed as %s (origins %s)" % (det, sorted(map(str, org))))
+            R.check(param_is(fl.get("userId", {"k": "const"}), ("logon_id",)), "C03.R5", "C03.R5:%s:userId" % fe["id"], q.where(B, bi),
+                    "userId = entry.logon_id")
+            for fld, callee, sub, argpath in (("processId", "Process::from_pid", "pid", ("process_id",)),
+                                              ("processName", "Process::from_pid", "name", ("process_id",)),
+                                              ("processFullPath", "Process::from_pid", "exe_full_name", ("process_id",)),
+                                              ("processCmdLine", "Process::from_pid", "command_line", ("process_id",)),
+                                              ("userName", "proxy::get_user", "user_name", ("logon_id",)),
+                                              ("userGroups", "proxy::get_user", "user_groups", ("logon_id",))):
+                org = B.origins(fl.get(fld, {"k": "const"}))
+                ok = bool(org) and all(x[0] == "call" and q.ends(x[1], callee) and x[3][-1:] == (sub,) and
+                                       param_is(B.blocks[x[2]]["term"]["args"][0], argpath) for x in org)
+                R.check(ok, "C03.R5", "C03.R5:%s:%s" % (fe["id"], fld), q.where(B, bi),
+                        "%s = %s(entry.%s).%s" % (fld, callee, argpath[0], sub), "%s origins: %s" % (fld, sorted(map(str, org))))
